@@ -750,3 +750,77 @@ Proof.
         (conj (proj1 Salsa.CFetchD.ExamplesWindow.window3) (conj Salsa.CFetchD.ExamplesWindow.sw_reachable
         (conj P1 (conj P2 (conj V3 V2))))))))).
 Qed.
+
+(* ------------------------------------------------------------------------------------------
+   THE MODEL-LEVEL THEOREM FOR ALL LEVELS — `_partial` (stage 13; CFetchD/ProofsStatic.v): with the
+   short-cut on, any number of handles, EVERY durability level (MEDIUM / HIGH stable windows: a memo
+   becomes verified in a revision in which its callees were not visited), for programs whose read
+   paths do not depend on the revision ([static_paths]) and whose input durabilities do not change
+   ([const_dur]), under the write rule of the last-changed vector (antitone in the level, monotone
+   in the revision, unchanged inputs over a window without a write at their level).
+   Invariant = ProofsVal's InvD + the frame additions of ProofsShort (pending claim-free store,
+   probe failure for walkers) + every memo's recorded durability is a semantic level of its key
+   ([durgeD], C16_stable_window_partial) + recorded edges lie on the read path; when the short-cut
+   marks a memo, the ghost set `seen` is closed over its call closure and the window theorem gives
+   the values of the whole closure at once.
+   GAP: dynamic read paths (values steering calls) and durability-changing writes — there a
+   callee may be re-executed along another path with a lower durability and an equal value, and
+   keeping [durgeD] through a mark-after-walk needs the observer clause of Core/DInv.v
+   ([mo_obs]: m_dur mg <= m_dur md; [frame_dur_lb]) plus the stamped-durability hypothesis. *)
+From Salsa.CFetchD Require ProofsStatic ExamplesStatic.
+
+Theorem C16_values_computed_shortcut_all_levels_partial :
+  forall fuel Q rank s t k r v,
+  Salsa.CFetchD.ProofsRel.rankedD Q rank -> Salsa.CFetchD.ProofsRel.stampsD_ok Q -> no_never Q ->
+  (forall r0 r' k0, Salsa.CFetchD.ProofsRel.readsb (ED Q rank r0) (d_in Q r0) (d_body Q k0)
+                    = Salsa.CFetchD.ProofsRel.readsb (ED Q rank r') (d_in Q r') (d_body Q k0)) ->
+  (forall r0 r' i, d_idur Q r0 i = d_idur Q r' i) ->
+  (forall r0 d d', d <= d' -> d_lc Q r0 d' <= d_lc Q r0 d) ->
+  (forall r0 r' d, r0 <= r' -> d_lc Q r0 d <= d_lc Q r' d) ->
+  (forall r1 r0 i, r0 <= r1 -> d_lc Q r1 (d_idur Q r0 i) <= r0 ->
+     d_in Q r1 i = d_in Q r0 i /\ d_stamp Q r1 i = d_stamp Q r0 i /\ d_idur Q r1 i = d_idur Q r0 i) ->
+  creachD fuel Q true s ->
+  In (ERet t k r v) (cD_log s) -> v = ED Q rank r k.
+Proof. exact Salsa.CFetchD.ProofsStatic.values_computed_shortcut. Qed.
+
+Check C16_values_computed_shortcut_all_levels_partial :
+  forall fuel Q rank s t k r v,
+  Salsa.CFetchD.ProofsRel.rankedD Q rank -> Salsa.CFetchD.ProofsRel.stampsD_ok Q -> no_never Q ->
+  (forall r0 r' k0, Salsa.CFetchD.ProofsRel.readsb (ED Q rank r0) (d_in Q r0) (d_body Q k0)
+                    = Salsa.CFetchD.ProofsRel.readsb (ED Q rank r') (d_in Q r') (d_body Q k0)) ->
+  (forall r0 r' i, d_idur Q r0 i = d_idur Q r' i) ->
+  (forall r0 d d', d <= d' -> d_lc Q r0 d' <= d_lc Q r0 d) ->
+  (forall r0 r' d, r0 <= r' -> d_lc Q r0 d <= d_lc Q r' d) ->
+  (forall r1 r0 i, r0 <= r1 -> d_lc Q r1 (d_idur Q r0 i) <= r0 ->
+     d_in Q r1 i = d_in Q r0 i /\ d_stamp Q r1 i = d_stamp Q r0 i /\ d_idur Q r1 i = d_idur Q r0 i) ->
+  creachD fuel Q true s ->
+  In (ERet t k r v) (cD_log s) -> v = ED Q rank r k.
+Print Assumptions C16_values_computed_shortcut_all_levels_partial.
+
+Theorem C16_memo_writes_sound_shortcut_all_levels_partial :
+  forall fuel Q rank s k m,
+  Salsa.CFetchD.ProofsRel.rankedD Q rank -> Salsa.CFetchD.ProofsRel.stampsD_ok Q -> no_never Q ->
+  Salsa.CFetchD.ProofsStatic.static_paths Q rank -> Salsa.CFetchD.ProofsStatic.const_dur Q ->
+  Salsa.CFetchD.ProofsWindow.lc_antitone Q -> Salsa.CFetchD.ProofsStatic.lc_mono Q ->
+  Salsa.CFetchD.ProofsWindow.write_rule Q ->
+  creachD fuel Q true s ->
+  cD_memo s k = Some m -> o_val m = ED Q rank (o_ver m) k.
+Proof. exact Salsa.CFetchD.ProofsStatic.memo_sound_shortcut. Qed.
+
+Check C16_memo_writes_sound_shortcut_all_levels_partial :
+  forall fuel Q rank s k m,
+  Salsa.CFetchD.ProofsRel.rankedD Q rank -> Salsa.CFetchD.ProofsRel.stampsD_ok Q -> no_never Q ->
+  Salsa.CFetchD.ProofsStatic.static_paths Q rank -> Salsa.CFetchD.ProofsStatic.const_dur Q ->
+  Salsa.CFetchD.ProofsWindow.lc_antitone Q -> Salsa.CFetchD.ProofsStatic.lc_mono Q ->
+  Salsa.CFetchD.ProofsWindow.write_rule Q ->
+  creachD fuel Q true s ->
+  cD_memo s k = Some m -> o_val m = ED Q rank (o_ver m) k.
+Print Assumptions C16_memo_writes_sound_shortcut_all_levels_partial.
+
+(* non-vacuity: the HIGH-window witness (C16_high_window_witness: key 3 served through the
+   short-cut by handle 1 while handle 2 walks key 4; the HIGH write invalidates it) satisfies every
+   hypothesis, so its returned values are the from-scratch values BY THE THEOREM *)
+Example C16_high_window_by_theorem :
+  forall t k r v, In (ERet t k r v) (cD_log Salsa.CFetchD.ExamplesWindow.sw) ->
+  v = ED Salsa.CFetchD.ExamplesWindow.Qw Salsa.CFetchD.ExamplesWindow.rankw r k.
+Proof. exact Salsa.CFetchD.ExamplesStatic.sw_values_from_theorem. Qed.
